@@ -13,6 +13,11 @@
   (rmgrlist.h spelling) and the opcode tables of the segment's version (`Spec.Wal.pgOpName ver`, ver from the
   page magic: all of 12..16 are generated); where PostgreSQL defines no name the spec is silent and the expected
   text repeats the model's.  No normalisation on either side.
+  Records of any length (fixes/wal/11): walseg boundary cases 24..31 and the generator produce records longer than 16384
+  bytes over three and more pages (tag `rec>16384`); every (rmid, info) pair incl. the INIT_PAGE bit (fixes/wal/12, 13):
+  walnames is exhaustive, walseg boundary case 32 and the generator mix them into segments (tag `init-bit`).
+  waldir: the directory holds, beside regular files, directories and symbolic links named like segments
+  (fixes/entry/04: only regular files are read; tag `nonregular`).
   Open findings and their classes (tags): `kf:C17-btree-rmname` (a Btree record: "BTree" printed for "Btree"),
   `kf:C17-prepared-xid` (waldir: a commit/abort record that decides a transaction other than its header's),
   `kf:C17-cross-segment-record` (waldir: a segment file ends inside a record that the next file continues).
@@ -200,7 +205,29 @@ def boundarySegs : List WalSegment :=
     mkSeg [] [fpiRec 0x03 none, fpiRec 0x0B (some 8000), plainRec 40 2 0x90 700, plainRec 40 16 0x80 700, plainRec 40 21 0x00 700,
               plainRec 40 19 0x10 700, plainRec 40 18 0x20 700, plainRec 40 1 0x00 700],
     -- a Btree record: open finding C17-btree-rmname
-    mkSeg [] [plainRec 40 11 0x00 700, plainRec 40 11 0xB0 700, plainRec 40 1 0x00 700] ]
+    mkSeg [] [plainRec 40 11 0x00 700, plainRec 40 11 0xB0 700, plainRec 40 1 0x00 700],
+    -- 24..31: records around and beyond 16384 bytes, the length at which the tool gave up before fixes/wal/11 (former
+    -- finding C17-long-records; witness = case 26: a 40-byte heap INSERT, a 16392-byte XLOG FPI, a heap DELETE, a COMMIT)
+    mkSeg [] [plainRec 40 10 0x00 700, plainRec 16384 0 0xB0 0, plainRec 40 10 0x10 700, plainRec 40 1 0x00 700],
+    mkSeg [] [plainRec 40 10 0x00 700, plainRec 16385 0 0xB0 0, plainRec 40 10 0x10 700, plainRec 40 1 0x00 700],
+    mkSeg [] [plainRec 40 10 0x00 700, plainRec 16392 0 0xB0 0, plainRec 40 10 0x10 700, plainRec 40 1 0x00 700],
+    -- a record of about 39400 bytes with four block references (image, SAME_REL, data) over six pages, then a commit
+    mkSeg [] [heapIns, { multi with mainData := (List.range 39000).map fun i => UInt8.ofNat (i * 7) }, commit],
+    -- the header of a 20000-byte record straddles the end of page 0 (8 bytes there), on pages of PostgreSQL 13
+    { mkSeg [] [plainRec 8144 10 0x00 700, plainRec 20000 9 0xD0 700, plainRec 40 1 0x00 700] with magic := 0xD106 },
+    -- a long record that ends exactly at a page end (8112 + 2 * 8168 bytes), the next record starts the next page
+    mkSeg [] [plainRec 40 10 0x00 700, plainRec (8112 + 2 * 8168) 10 0x80 700, plainRec 40 1 0x00 700],
+    -- 20000 bytes of a record continued from the previous segment, then a 30000-byte record, never-written pages after it
+    mkSeg ((List.range 20000).map fun i => UInt8.ofNat (i + 1)) [plainRec 30000 0 0xB0 0, commit] 0x0000000123000000 2,
+    -- two long records back to back (70000 and 16385 bytes)
+    mkSeg [] [plainRec 70000 0 0xB0 0, plainRec 16385 9 0x50 700, plainRec 40 1 0x00 700],
+    -- 32: the INIT_PAGE combinations (former finding C17-init-page-names, fixes/wal/12): Heap 0x80 / 0xA0 / 0xC0 are
+    -- INSERT+INIT / UPDATE+INIT / HOT_UPDATE+INIT, Heap 0x90 has no name, Heap2 0xD0 MULTI_INSERT+INIT, Heap2 0x90 none,
+    -- BRIN 0x90 / 0xA0 INSERT+INIT / UPDATE+INIT, BRIN 0x80 none; records 5 and 11 (former finding
+    -- C17-rm-identify-spellings, fixes/wal/13): Heap 0x50 is HEAP_CONFIRM, Transaction 0x60 INVALIDATION
+    mkSeg [] [plainRec 40 10 0x80 700, plainRec 40 10 0xA0 700, plainRec 40 10 0xC0 700, plainRec 40 10 0x90 700,
+              plainRec 40 10 0x50 700, plainRec 40 9 0xD0 700, plainRec 40 9 0x90 700, plainRec 40 17 0x90 700,
+              plainRec 40 17 0xA0 700, plainRec 40 17 0x80 700, plainRec 40 1 0x60 700, plainRec 40 1 0x00 700] ]
 
 def pagesTag (n : Nat) : String :=
   if n ≤ 1 then "pages=1" else if n ≤ 2 then "pages=2" else if n ≤ 4 then "pages=3-4" else if n ≤ 8 then "pages=5-8"
@@ -219,6 +246,9 @@ def segTags (s : WalSegment) : List String :=
    (if nblk == 0 then "blocks=0" else "blocks>0")] ++
   (if cross then ["crosspage"] else []) ++ (if exact then ["ends-at-page-end"] else []) ++
   (if skip then ["skips-whole-page"] else []) ++ (if !s.pre.isEmpty then ["contrecord-at-start"] else []) ++
+  (if s.records.any (fun r => r.totLen > 16384) then ["rec>16384"] else []) ++
+  (if ro.any (fun x => (locate x.2).2 + x.1.totLen > 8192 + 3 * capN) then ["rec-pages>=5"] else []) ++
+  (if s.records.any (fun r => (r.rmid == 9 || r.rmid == 10 || r.rmid == 17) && r.info &&& 0x80 != 0) then ["init-bit"] else []) ++
   (if s.startAddr == 0 then ["addr=0"] else []) ++
   (if s.records.any (fun r => r.mainData.length > 255) then ["main=long"] else []) ++
   (if s.records.any (fun r => r.blocks.any (·.image.isSome)) then ["image"] else []) ++
@@ -317,21 +347,37 @@ def showSummaryS (segs : List Spec.Wal.WalSegment) : String :=
     (strBytes "txs", .arr ((sortNat t.txs).map fun e => .arr [natVal e.1, strVal e.2.1, natVal e.2.2])),
     (strBytes "tables", .obj (t.tables.map fun e => (strBytes e.1, natVal e.2)))]).show
 
-def parseDirArgs : List String → Model.Wal.Dir
-  | n :: c :: rest => (String.ofList ((unhex n).map fun b => Char.ofNat b.toNat), unhex c) :: parseDirArgs rest
+/-- the entries of pg_wal on the case line: (name hex, content) pairs; content = hexrle of a regular file's bytes,
+`d:` for a directory, `l:` + hexrle for a symbolic link to a regular file with those bytes (fixes/entry/04; the pair
+format of the regular files is the one the recorded witnesses use) -/
+def entryOfArgs (n c : String) : Model.Wal.DirEntry :=
+  let name := String.ofList ((unhex n).map fun b => Char.ofNat b.toNat)
+  if c.startsWith "d:" then ⟨name, .dir, []⟩
+  else if c.startsWith "l:" then ⟨name, .symlink, unhex (c.drop 2)⟩
+  else ⟨name, .regular, unhex c⟩
+
+def contentArg (e : Model.Wal.DirEntry) : String :=
+  match e.kind with
+  | .regular => hexRle e.data
+  | .symlink => "l:" ++ hexRle e.data
+  | _ => "d:"
+
+def parseDirArgs : List String → Model.Wal.Entries
+  | n :: c :: rest => entryOfArgs n c :: parseDirArgs rest
   | _ => []
 
 def waldirEval (args : List String) : String :=
   match args with
   | limit :: rest =>
-    let dir := parseDirArgs rest
-    showM showSummaryM (Model.Wal.scanWALDirectory dir) ++ "|" ++
-      showM showRecsM (Model.Wal.getRecentWALRecords dir (limit.toInt?.getD 0))
+    let es := parseDirArgs rest
+    showM showSummaryM (Model.Wal.scanWALDirectoryOf es) ++ "|" ++
+      showM showRecsM (Model.Wal.getRecentWALRecordsOf es (limit.toInt?.getD 0))
   | _ => "bad-args"
 
 structure DirCase where
   segs : List Spec.Wal.WalSegment      -- the segments, in name order: what the directory holds
-  files : List (String × Bytes)        -- everything in the directory, shuffled
+  files : List (String × Bytes)        -- every regular file in the directory, shuffled
+  others : List (String × Model.Wal.EntryKind × Bytes) := []   -- entries that are not regular files (fixes/entry/04)
   limit : Nat
   negative : Bool := false             -- pass `-limit - 1` instead: "at most a negative number of records" = none (fixes/entry/01)
   xseg : Bool := false                 -- the first segment file ends inside a record which the second file continues
@@ -384,7 +430,15 @@ def fixedDirs : List DirCase :=
                                         "00000001000000000000000G"],
     one { mkSeg [] [heapIns, plainRec 40 9 0x10 700, commit] with magic := 0xD101 },
     one { mkSeg [] [heapIns, plainRec 40 9 0x10 700, commit] with magic := 0xD106 },
-    one { mkSeg [] [heapIns, plainRec 40 9 0x10 700, commit] with magic := 0xD10D } ]
+    one { mkSeg [] [heapIns, plainRec 40 9 0x10 700, commit] with magic := 0xD10D },
+    -- fixes/entry/04: beside the segment, a symbolic link and a directory named like the next two segments (the link leads to
+    -- a copy of the segment: before the fix it was read as a second segment and doubled every tally)
+    (let s := mkSeg [] [heapIns, commit]
+     { one s with others := [("000000010000000100000024", .symlink, Spec.Wal.encSegment s), ("000000010000000100000025", .dir, [])] }),
+    -- fixes/wal/11 in the summary: a segment whose second record has 16392 bytes; the records after it are tallied
+    one (boundarySegs.getD 26 default),
+    -- fixes/wal/12, 13 in the per-operation counts
+    one (boundarySegs.getD 32 default) ]
 
 def genDir (size : Nat) : Gen DirCase := do
   let nseg ← Gen.range 1 4
@@ -420,6 +474,13 @@ def genDir (size : Nat) : Gen DirCase := do
   -- junk files hold a valid segment image: only the name keeps them out
   let junkFiles := junk.map fun n => (n, (segFiles.head?.map (·.2)).getD [])
   let files ← Gen.shuffle (segFiles ++ junkFiles)
+  -- sometimes entries that are not regular files, named like the segments after the last one; a link leads to a valid image
+  let nother ← if ← Gen.prob 1 3 then Gen.range 1 2 else pure 0
+  let mut others : List (String × Model.Wal.EntryKind × Bytes) := []
+  for j in [0:nother] do
+    let name := Gen.Wal.segFileName tli ((segno0 + nseg + 1 + j) * segSize) segSize
+    if ← Gen.bool then others := others ++ [(name, .symlink, (segFiles.head?.map (·.2)).getD [])]
+    else others := others ++ [(name, .dir, [])]
   let total := (segList.map (·.records.length)).sum
   let limit ← match ← Gen.below 6 with
     | 0 => pure 0
@@ -428,16 +489,17 @@ def genDir (size : Nat) : Gen DirCase := do
     | 3 => pure (total + 5)
     | _ => Gen.range 0 (total + 1)
   let negative ← Gen.prob 1 12
-  return { segs := segList, files, limit, negative, xseg }
+  return { segs := segList, files, others, limit, negative, xseg }
 
 def takeLast (n : Nat) (xs : List α) : List α := xs.drop (xs.length - n)
 
 def waldirGen (seed idx size : Nat) : Case :=
   let d := if idx < fixedDirs.length then fixedDirs.getD idx { segs := [], files := [], limit := 0 }
            else (genDir size).run' (Prng.ofSeed seed idx)
-  let model := Model.Wal.scanWALDirectory d.files
+  let entries : Model.Wal.Entries := d.files.map (fun f => ⟨f.1, .regular, f.2⟩) ++ d.others.map fun o => ⟨o.1, o.2.1, o.2.2⟩
+  let model := Model.Wal.scanWALDirectoryOf entries
   let limitArg : Int := if d.negative then -(d.limit : Int) - 1 else d.limit
-  let recent := Model.Wal.getRecentWALRecords d.files limitArg
+  let recent := Model.Wal.getRecentWALRecordsOf entries limitArg
   let allViews : List String := d.segs.flatMap fun s => s.view.map (showRecS s.magic)
   let spec := showSummaryS d.segs ++ "|" ++ joinWith ";" (takeLast (if d.negative then 0 else d.limit) allViews)
   let kf := Spec.Wal.dedup (d.segs.flatMap kfTags ++
@@ -447,10 +509,10 @@ def waldirGen (seed idx size : Nat) : Case :=
   let tags := [s!"segs={d.segs.length}", s!"junk={d.files.length - d.segs.length}",
                s!"pg={(d.segs.head?.map fun s => verOf s.magic).getD 0}",
                (if d.negative then "limit<0" else if d.limit == 0 then "limit=0" else if d.limit ≥ allViews.length then "limit>=all" else "limit<all")] ++
-              (if junk24 > 0 then ["junk24"] else []) ++
+              (if junk24 > 0 then ["junk24"] else []) ++ (if d.others.isEmpty then [] else ["nonregular"]) ++
               kf ++ (if allViews.isEmpty then [] else ["nt"])
   { tags, model := showM showSummaryM model ++ "|" ++ showM showRecsM recent, spec,
-    args := toString limitArg :: d.files.flatMap fun f => [hexOf (strBytes f.1), hexRle f.2] }
+    args := toString limitArg :: entries.flatMap fun e => [hexOf (strBytes e.name), contentArg e] }
 
 def waldir : Family := { name := "waldir", gen := waldirGen, eval := waldirEval, fixed := fixedDirs.length }
 
@@ -464,7 +526,7 @@ def walFields : List (Nat × Nat) :=
 
 def mutSegment (seed idx size : Nat) : Bytes :=
   let g : Gen Bytes := do
-    let s ← Gen.Wal.genSegment (max (min size 3) 1) true
+    let s ← Gen.Wal.genSegment (max (min size 4) 1) true
     let file := Spec.Wal.encSegment s
     -- aim some mutations at the tot_len of a record in the middle and at block headers after it
     let offs := s.offsets.map fun o => (Spec.Wal.locate o).1 * 8192 + (Spec.Wal.locate o).2
@@ -473,7 +535,7 @@ def mutSegment (seed idx size : Nat) : Bytes :=
   g.run' (Prng.ofSeed seed idx)
 
 /-- a segment image holding a heap record of total length `n` (continued over as many pages as it takes) between two
-small records; `n` may exceed the 16000 bytes of `WalRecord.WF` (the encoder does not care) -/
+small records -/
 def bigRecordFile (n : Nat) : Bytes :=
   Spec.Wal.encSegment (mkSeg [] [plainRec 40 10 0x00 700, plainRec n 10 0x20 700, plainRec 40 1 0x00 700])
 
@@ -504,8 +566,19 @@ def fixedMut : List Bytes :=
   ++ ([18, 19, 20, 21, 22].flatMap fun i =>
         let f := Spec.Wal.encSegment (boundarySegs.getD i default)
         [0xD101, 0xD10D, 0xD110, 0xD113].map fun m => Gen.setAt f 0 (le 2 m))
-  -- a record longer than 16384 bytes (outside the property's quantifier: 24..16000): the tool gives up on the page
+  -- a record longer than 16384 bytes (before fixes/wal/11 the tool gave up on the page)
   ++ [bigRecordFile 16384, bigRecordFile 16385, bigRecordFile 16392, bigRecordFile 40000]
+  -- fixes/wal/11: xl_tot_len at XLogRecordMaxSize and beyond; the reassembly guard `totalLen-len(recData) <= len(following)`:
+  -- a long record whose following pages are missing, one byte short, exactly enough; whose third / last page does not
+  -- continue it; xl_tot_len far larger than the file (nothing that size may be allocated)
+  ++ ([1069547520, 1069547521, 1069547519, 100000, 16000000].map fun v => Gen.setAt base 40 (le 4 v))
+  ++ (let f := bigRecordFile 16392
+      let g := bigRecordFile 40000
+      [f.take 8192, f.take 16384, f.take (3 * 8192 - 1), f.take (3 * 8192), g.take (4 * 8192), g.take (5 * 8192),
+       Gen.setAt f 16400 (le 4 113), Gen.setAt f 16400 (le 4 111), Gen.setAt f 16386 (le 2 0), Gen.setAt f 16384 (le 2 0xD114),
+       Gen.setAt g 32784 (le 4 0), Gen.setAt g 40960 (le 2 0),
+       Gen.setAt f 80 (le 4 (16392 + 8168)), Gen.setAt f 80 (le 4 (2 ^ 32 - 1)), Gen.setAt f 80 (le 4 1069547520),
+       Gen.setAt (f.take 8192) 80 (le 4 (2 ^ 31)), Gen.setAt g 80 (le 4 39999), Gen.setAt g 80 (le 4 40001)])
 
 def mutInput (seed idx size : Nat) : Bytes :=
   if idx < fixedMut.length then fixedMut.getD idx [] else mutSegment seed idx size
